@@ -299,7 +299,53 @@ class C12(Property):
                'def DEFAULT_MAXSIZE : Nat := %d\n'
                'def RECV_LARGE_MAXSIZE : Nat := %d\n'
                'end C12.Gen\n' % (dm, lm))
-        return {'C12_Consts.lean': src}
+        rows = self._ns_window_rows()
+        win = ('/- GENERATED by harness/bv/props/c12.py (regen) by EVALUATING boltons.socketutils.NetstringSocket - do not edit.\n'
+               '   For each maxsize n: the longest size prefix, its `:` included, that read_ns still accepts (measured through\n'
+               '   the public API on the streams `0...0:,`) when n was given to the constructor / to setmaxsize() / as the\n'
+               '   maxsize= argument of read_ns.  Props.lean proves that the model computes the same three numbers. -/\n'
+               'namespace C12.Gen\n'
+               'def nsWindowTable : List (Nat × Nat × Nat × Nat) :=\n  [%s]\n'
+               'end C12.Gen\n' % ',\n   '.join('(%d, %d, %d, %d)' % r for r in rows))
+        return {'C12_Consts.lean': src, 'C12_NsWindow.lean': win}
+
+    NS_WINDOW_DOMAIN = ([0, 1, 5, 9, 10, 11, 99, 100, 101, 999, 1000, 32768, 65535, 99999, 100000] +
+                        [10 ** k - 1 for k in (9, 12, 15, 16, 17, 18)] + [10 ** k for k in (9, 12, 15, 16, 17, 18)] +
+                        [2 ** 31 - 1, 2 ** 31, 2 ** 53, 2 ** 63 - 1, 2 ** 64])
+
+    def _ns_window_rows(self):
+        """evaluate (never pattern-match) how long a size prefix the reader accepts, per configuration path"""
+        from boltons.socketutils import NetstringSocket
+
+        def accepted(n, path, k):
+            try:
+                with time_limit(5):
+                    fake = FakeSock([b'0' * k + b':,'])
+                    if path == 'ctor':
+                        ns, kw = NetstringSocket(fake, timeout=None, maxsize=n), {}
+                    elif path == 'set':
+                        ns, kw = NetstringSocket(fake, timeout=None, maxsize=0), {}
+                        ns.setmaxsize(n)
+                    else:
+                        ns, kw = NetstringSocket(fake, timeout=None, maxsize=0), {'maxsize': n}
+                    ns.bsock.settimeout(None)
+                    return bytes(ns.read_ns(**kw)) == b''
+            except InfraError:
+                raise
+            except BaseException as e:
+                if isinstance(e, (KeyboardInterrupt, SystemExit)):
+                    raise
+                return False
+
+        def window(n, path):
+            w = 1
+            for k in range(1, 40):
+                if accepted(n, path, k):
+                    w = k + 1
+                else:
+                    break
+            return w
+        return [(n, window(n, 'ctor'), window(n, 'set'), window(n, 'arg')) for n in self.NS_WINDOW_DOMAIN]
 
     def extra_checks(self):
         """the generated constants, printed back by the compiled driver, equal the live ones"""
